@@ -1389,7 +1389,7 @@ func (f *Frame) execIndex(x *ssa.Index) {
 		f.safety("index", and(sx("<=", "0", idx.t), sx("<", idx.t, fmt.Sprint(xt.Len()))), x.Pos())
 		f.vals[x] = Val{sx("select", v.t, idx.t), vc.sortOf(xt.Elem()), xt.Elem()}
 	case *types.Basic: // string index
-		vc.errf("%s: string indexing unsupported", vc.P.fnKey(f.fn))
+		vc.abstractf("%s: string indexing: arbitrary byte", vc.P.fnKey(f.fn))
 		f.vals[x] = vc.freshVal("strindex", x.Type())
 	case *types.Slice:
 		f.safety("index", and(sx("<=", "0", idx.t), sx("<", idx.t, sx("len_"+v.s, v.t))), x.Pos())
@@ -1441,7 +1441,7 @@ func (f *Frame) execSlice(x *ssa.Slice) {
 	case *types.Slice:
 		v := f.sval(x.X)
 		if v.s == SBS {
-			vc.errf("%s: byte-string slicing unsupported", vc.P.fnKey(f.fn))
+			vc.abstractf("%s: byte-string slicing: arbitrary sub-string", vc.P.fnKey(f.fn))
 			f.vals[x] = vc.freshVal("sub", x.Type())
 			return
 		}
@@ -1529,7 +1529,7 @@ func (f *Frame) loopOfIter(it ssa.Value) *loopInfo {
 func (f *Frame) execLookup(x *ssa.Lookup) {
 	vc := f.vc
 	if _, isStr := x.X.Type().Underlying().(*types.Basic); isStr {
-		vc.errf("%s: string indexing unsupported", vc.P.fnKey(f.fn))
+		vc.abstractf("%s: string indexing: arbitrary byte", vc.P.fnKey(f.fn))
 		f.vals[x] = vc.freshVal("strindex", x.Type())
 		return
 	}
